@@ -75,6 +75,88 @@ def match_known(violation, findings):
     return None
 
 
+# ------------------------------------------------------------------ process isolation per run
+
+class ChildCrashed(Exception):
+    def __init__(self, status):
+        Exception.__init__(self, f'child process died (wait status {status})')
+        self.status = status
+        self.signal = status & 0x7f
+        self.exit_code = (status >> 8) & 0xff
+
+
+def isolated(fn, *args, wall_cap=None):
+    """run fn(*args) in a freshly forked child of this (pristine: it never parses
+    itself) process.  One run = one process image, so state that code under test
+    keeps in statics / module globals cannot leak from one run into the next and a
+    replay in a fresh interpreter sees exactly what the run saw."""
+    import pickle
+    r, w = os.pipe()
+    pid = os.fork()
+    if pid == 0:
+        code = 0
+        try:
+            os.close(r)
+            if wall_cap:
+                faulthandler.dump_traceback_later(wall_cap, exit=True)
+            try:
+                out = ('ok', fn(*args))
+            except BaseException as e:  # noqa
+                out = ('exc', type(e).__name__, str(e), traceback.format_exc())
+            data = pickle.dumps(out)
+            with os.fdopen(w, 'wb') as f:
+                f.write(data)
+        except BaseException:
+            code = 3
+        finally:
+            os._exit(code)
+    os.close(w)
+    with os.fdopen(r, 'rb') as f:
+        data = f.read()
+    _, status = os.waitpid(pid, 0)
+    if not data:
+        raise ChildCrashed(status)
+    out = pickle.loads(data)
+    if out[0] == 'ok':
+        return out[1]
+    if out[1] == 'HarnessError':
+        raise env.HarnessError(out[2])
+    raise RuntimeError(f'{out[1]}: {out[2]}\n{out[3]}')
+
+
+def run_one(prop, seed, index, tier, options):
+    """generate + execute one run, each from a pristine process image.
+    returns (spec, result)"""
+    cap = options.get('run_wall_cap', 120)
+    if getattr(prop, 'isolate', True):
+        spec = isolated(prop.generate, seed, index, tier, options, wall_cap=cap)
+        return spec, execute_spec(prop, spec, cap)
+    faulthandler.dump_traceback_later(cap, exit=True)
+    try:
+        spec = prop.generate(seed, index, tier, options)
+        return spec, prop.execute(spec)
+    finally:
+        faulthandler.cancel_dump_traceback_later()
+
+
+def execute_spec(prop, spec, cap=120, executor_mode=None):
+    if not getattr(prop, 'isolate', True):
+        return prop.execute(spec) if executor_mode is None else prop.execute(spec, executor_mode)
+    try:
+        if executor_mode is None:
+            return isolated(prop.execute, spec, wall_cap=cap)
+        return isolated(prop.execute, spec, executor_mode, wall_cap=cap)
+    except ChildCrashed as e:
+        if e.signal:
+            # the code under test killed its process: that is an observation, not a harness failure
+            st = new_stats()
+            v = Violation(property=prop.id, oracle='process_crash',
+                          message=f'the process executing the run died with signal {e.signal}',
+                          signature={'signal': e.signal})
+            return {'violations': [v], 'stats': st, 'log_digest': f'crash-{e.signal}'}
+        raise env.HarnessError(f'run exceeded its wall cap of {cap}s or the child failed (exit code {e.exit_code})')
+
+
 # ------------------------------------------------------------------ worker side
 
 def _worker_batch(prop_name, seed, indices, tier, options):
@@ -89,15 +171,8 @@ def _worker_batch(prop_name, seed, indices, tier, options):
     known_examples = set()
     t0 = time.time()
     for index in indices:
-        faulthandler.dump_traceback_later(options.get('run_wall_cap', 120), exit=True)
         t_run = time.time()
-        try:
-            spec = prop.generate(seed, index, tier, options)
-            result = prop.execute(spec)
-        except env.HarnessError:
-            raise
-        finally:
-            faulthandler.cancel_dump_traceback_later()
+        spec, result = run_one(prop, seed, index, tier, options)
         merge_stats(stats, result['stats'])
         bump(stats, 'runs')
         dt = time.time() - t_run
@@ -230,7 +305,7 @@ def shrink(prop_name, spec, target, budget_s=60):
                 break
             steps += 1
             try:
-                res = prop.execute(cand)
+                res = execute_spec(prop, cand)
             except Exception:
                 continue
             if any(same_failure(v, target) for v in res['violations']):
